@@ -31,6 +31,9 @@ pub enum Kind {
     Ast,
     NearMiss,
     Raw,
+    /// G11: long locales (many variants / keywords / private tags) and huge ones (20-150 entries per list)
+    Long,
+    Huge,
     List(Vec<Vec<u8>>),
 }
 
@@ -70,6 +73,8 @@ pub fn phases(cfg: &Cfg) -> Vec<Phase> {
     v.push(Phase { name: "G2 well-formed locales (proptest)".into(), kind: Kind::Ast, n });
     v.push(Phase { name: "G3 near-miss mutations of well-formed locales (proptest)".into(), kind: Kind::NearMiss, n });
     v.push(Phase { name: "G4 weighted raw bytes (proptest)".into(), kind: Kind::Raw, n: cfg.pick(200_000, 3_000_000) });
+    v.push(Phase { name: "G11 long locales: many variants, keywords, private tags (proptest)".into(), kind: Kind::Long, n: cfg.pick(30_000, 500_000) });
+    v.push(Phase { name: "G11 huge locales: 20-150 attributes / keywords / tfields / private tags (sorting and searching beyond the small-list paths; proptest)".into(), kind: Kind::Huge, n: cfg.pick(6_000, 100_000) });
     let c = gen::corpus(&cfg.repo);
     let mut all: Vec<Vec<u8>> = vec![];
     for n in c.locale_names.iter().chain(c.likely_keys.iter().step_by(8)) {
@@ -87,10 +92,12 @@ struct Strats {
     ast: proptest::strategy::SBoxedStrategy<gen::Ast>,
     near: proptest::strategy::SBoxedStrategy<Vec<u8>>,
     raw: proptest::strategy::SBoxedStrategy<Vec<u8>>,
+    long: proptest::strategy::SBoxedStrategy<Vec<u8>>,
+    huge: proptest::strategy::SBoxedStrategy<Vec<u8>>,
 }
 
 fn strats() -> Strats {
-    Strats { ast: gen::s_ast(), near: gen::s_near_miss(), raw: gen::s_raw() }
+    Strats { ast: gen::s_ast(), near: gen::s_near_miss(), raw: gen::s_raw(), long: gen::s_locale_long_bytes(), huge: gen::s_locale_huge_bytes() }
 }
 
 fn phase_case(ph: &Phase, pi: usize, idx: u64, seed: u64, s: &Strats) -> Option<Vec<u8>> {
@@ -105,6 +112,8 @@ fn phase_case(ph: &Phase, pi: usize, idx: u64, seed: u64, s: &Strats) -> Option<
         Kind::Ast => gen_case(&s.ast, seed, salt("c01-g2") ^ pi as u64, idx).map(|a| a.render()),
         Kind::NearMiss => gen_case(&s.near, seed, salt("c01-g3") ^ pi as u64, idx),
         Kind::Raw => gen_case(&s.raw, seed, salt("c01-g4") ^ pi as u64, idx),
+        Kind::Long => gen_case(&s.long, seed, salt("c01-g11l") ^ pi as u64, idx),
+        Kind::Huge => gen_case(&s.huge, seed, salt("c01-g11h") ^ pi as u64, idx),
         Kind::List(l) => l.get(idx as usize).cloned(),
     }
 }
@@ -923,7 +932,7 @@ pub fn run_own(cfg: &Cfg) -> Stats {
         inconclusive.push(format!("{gave_up} worker(s) died 3 times and no culprit input could be confirmed"));
     }
     for p in phases(cfg) {
-        total.subspace(&p.name, p.n, !matches!(p.kind, Kind::Ast | Kind::NearMiss | Kind::Raw));
+        total.subspace(&p.name, p.n, !matches!(p.kind, Kind::Ast | Kind::NearMiss | Kind::Raw | Kind::Long | Kind::Huge));
     }
     fixed_bytes(&mut total);
     // long inputs, each in its own child with a 60 s limit
